@@ -1695,35 +1695,27 @@ class PyCdlib:
 
         self._needs_reshuffle = False
 
-    def _add_child_to_dr(self, child):
-        # type: (dr.DirectoryRecord) -> int
+    def _add_child_to_dr(self, child, data_continuation=False):
+        # type: (dr.DirectoryRecord, bool) -> int
         """
         An internal method to add a child to a directory record, expanding the
         space in the Volume Descriptor(s) if necessary.
 
         Parameters:
          child - The new child.
+         data_continuation - Whether this child is the second or later record of
+                             a very large file, which is the one situation where
+                             a directory may hold the same identifier twice.
         Returns:
          The number of bytes to add for this directory record (this may be zero).
         """
         if child.parent is None:
             raise pycdlibexception.PyCdlibInternalError('Trying to add child without a parent')
 
-        try_long_entry = False
-        try:
-            ret = child.parent.add_child(child, self.logical_block_size)
-        except pycdlibexception.PyCdlibInvalidInput:
-            # dir_record.add_child() may throw a PyCdlibInvalidInput if it was
-            # given a duplicate child.  However, we allow duplicate children if
-            # and only the last child is the same; this represents a very large
-            # file.
-            if not child.is_dir():
-                try_long_entry = True
-            else:
-                raise
-
-        if try_long_entry:
-            ret = child.parent.add_child(child, self.logical_block_size, True)
+        # dir_record.add_child() throws a PyCdlibInvalidInput if it was given a
+        # duplicate child, unless we tell it that this is a continuation.
+        ret = child.parent.add_child(child, self.logical_block_size,
+                                     data_continuation)
 
         # The add_child() method returns True if the parent needs another extent
         # in order to fit the directory record for this child.
@@ -3123,9 +3115,12 @@ class PyCdlib:
         joliet_new_path = None
         rr_name = b''
         udf_new_path = None
+        data_continuation = False
         new_rec = None  # type: Optional[Union[dr.DirectoryRecord, udfmod.UDFFileEntry]]
         for key, value in kwargs.items():
-            if key == 'iso_new_path':
+            if key == 'data_continuation':
+                data_continuation = value
+            elif key == 'iso_new_path':
                 if value is not None:
                     num_new += 1
                     iso_new_path = utils.normpath(value)
@@ -3178,7 +3173,7 @@ class PyCdlib:
                              vd.sequence_number(), rr, rr_name, xa, file_mode,
                              time.time())
 
-            num_bytes_to_add += self._add_child_to_dr(new_rec)
+            num_bytes_to_add += self._add_child_to_dr(new_rec, data_continuation)
             num_bytes_to_add += self._update_rr_ce_entry(new_rec)
         else:
             if self.udf_root is None:
@@ -3299,7 +3294,8 @@ class PyCdlib:
                                                                  fmode,
                                                                  eltorito_catalog,
                                                                  iso_new_path=iso_path,
-                                                                 rr_name=rr_name)
+                                                                 rr_name=rr_name,
+                                                                 data_continuation=offset > 0)
 
             if joliet_path:
                 # If this is a Joliet ISO, then we can re-use add_hard_link to do
@@ -3307,7 +3303,8 @@ class PyCdlib:
                 num_bytes_to_add += self._add_hard_link_to_inode(ino, thislen,
                                                                  fmode,
                                                                  eltorito_catalog,
-                                                                 joliet_new_path=joliet_path)
+                                                                 joliet_new_path=joliet_path,
+                                                                 data_continuation=offset > 0)
 
             # This goes after the hard link so we only track the new Inode if
             # everything above succeeds
@@ -3320,10 +3317,18 @@ class PyCdlib:
                 done = True
 
         if udf_path:
-            num_bytes_to_add += self._add_hard_link_to_inode(ino, length,
-                                                             fmode,
-                                                             eltorito_catalog,
-                                                             udf_new_path=udf_path)
+            try:
+                num_bytes_to_add += self._add_hard_link_to_inode(ino, length,
+                                                                 fmode,
+                                                                 eltorito_catalog,
+                                                                 udf_new_path=udf_path)
+            except pycdlibexception.PyCdlibInvalidInput:
+                # If the UDF name was refused and nothing else refers to the
+                # new Inode, stop tracking it; otherwise mastering would try to
+                # write out data that has no location.
+                if ino is not None and not ino.linked_records:
+                    self.inodes.pop()
+                raise
 
         return num_bytes_to_add
 
